@@ -571,6 +571,43 @@ def replay(model, info, art):
     return "contradicted", f"native run followed the schedule and satisfied the obligation: {summary}"
 
 
+def failed_status(model, info, art):
+    """C02 / _status_object_completed: a real RunEngine, a status object that reports failure with a device exception"""
+    import asyncio as aio_
+    decisions = dict((a, b) for a, b in (art.get("decisions") or []))
+    success = str(decisions.get("status.success", "False")) == "True"
+    pardoned = str(decisions.get("pardon_failures.is_set()", "False")) == "True"
+    from bluesky.utils import FailedStatus
+    RE = RunEngine({}, context_managers=[])
+    dev_exc = ValueError("device says no")
+
+    class St:
+        pass
+    st = St()
+    st.success = success
+    st.exception = lambda timeout=None: dev_exc
+    loop = RE.loop
+    out = {}
+
+    async def go():
+        fut = loop.create_future()
+        pardon = aio_.Event()
+        if pardoned:
+            pardon.set()
+        RE._exception = None
+        RE._status_object_completed(st, fut, pardon)
+        out["fut_exc"] = fut.exception() if fut.done() and not fut.cancelled() else None
+        out["fut_done"] = fut.done()
+        out["stored"] = RE._exception
+    aio_.run_coroutine_threadsafe(go(), loop).result(5)
+    e = out["stored"]
+    if not success and not pardoned:
+        ok = isinstance(e, FailedStatus) and e.args == (st,) and e.__cause__ is dev_exc and out["fut_exc"] is e
+    else:
+        ok = e is None and out["fut_done"] and out["fut_exc"] is None
+    return ("contradicted" if ok else "confirmed"), f"success={success} pardoned={pardoned} stored={e!r} cause={getattr(e, '__cause__', None)!r} future exception={out['fut_exc']!r}"
+
+
 if __name__ == "__main__":
     import sys
     art = json.load(open(sys.argv[1]))
